@@ -265,6 +265,21 @@ class FormatMachine(MachineBase):
                                  "opened_for_write_before_failure": opened, "why": why, "error": exc_class(e)})
         return "refused:" + exc_class(e)
 
+    def op_fs_clobber(self, op):
+        """another writer replaces the file at the destination between two operations of this node"""
+        path = self.path(op)
+        if self.fs.get(path) is None:
+            return "noop"
+        how = op.get("how", "garbage")
+        data = {"garbage": b"\x00 not metadata at all \xff", "empty": b"", "json": b'{"header": {"version": "1.2", "type": "productmd.other"}, "payload": {}}\n' * 40,
+                "longer": (self.fs.get(path) or b"") + b"\n" + b"#" * 4096}.get(how, b"x")
+        self.fs.put(path, data)
+        if path in self.durable:
+            self.durable[path]["clean"] = False
+            self.durable[path]["expected"] = None
+        CTX.fault("F4.destination_replaced_by_another_writer")
+        return "clobbered:" + how
+
     def op_dumps(self, op):
         s = self.slot(op)
         if s is None or s.obj is None:
@@ -300,6 +315,30 @@ class FormatMachine(MachineBase):
         """Build a fresh instance and load it from SimFS the way `via` says.
         Returns the new object; exceptions propagate."""
         new = self.new_obj()
+        pre = getattr(self, "_pre_load", None)
+        if pre:
+            self._pre_load = None
+            hdr = getattr(new, "header", None)
+            if "peek" in pre and hdr is not None:
+                try:
+                    hdr.version_tuple         # a public, read-only look at a fresh object must not influence the load
+                    hdr.version
+                except Exception:
+                    pass
+            for kind in pre:
+                if kind == "peek":
+                    continue
+                # a load that is REFUSED first (the object stays the caller's; it is then used for the real load)
+                junk = "/sim/d/.junk-" + self.FILE
+                self.fs.put(junk, self.junk_document(kind))
+                try:
+                    new.load(junk)
+                except Exception:
+                    pass
+                else:
+                    new = self.new_obj()      # it was (legitimately) accepted: not the scenario, start over with a fresh one
+                self.fs.remove(junk)
+                CTX.probe("load.after_refused_load." + kind)
         if via == "handle":
             f = self.fs.open(path, "r")
             try:
@@ -315,10 +354,21 @@ class FormatMachine(MachineBase):
             new.load(path)
         return new
 
+    def junk_document(self, kind):
+        if kind == "wrong-type" and self.KIND == "json":
+            other = "productmd.rpms" if self.HEADER_TYPE != "productmd.rpms" else "productmd.images"
+            return json.dumps({"header": {"type": other, "version": "1.2"}, "payload": {}})
+        if kind == "wrong-type" and self.KIND == "ini":
+            return "[header]\ntype = productmd.images\nversion = 1.2\n"
+        if kind == "empty":
+            return b""
+        return b"\x00\xff definitely not metadata"
+
     def op_restart(self, op):
         s = self.slot(op)
         if s is None:
             return "noop"
+        self._pre_load = op.get("pre")
         path = self.path(op)
         d = self.durable.get(path)
         if self.fs.get(path) is None or d is None:
@@ -408,6 +458,10 @@ class FormatMachine(MachineBase):
         ver = d.get("legacy_version", "?")
         key = "%s/v%s" % (self.FORMAT, ver)
         CTX.fault("F8.older_format_on_disk")
+        if ver in ("0.0", "corpus") and getattr(self, "_pre_load", None):
+            # a header-less file relies on the object's initial header version: re-using an object on which an earlier
+            # load was refused half-way is not something the properties speak about for such files
+            self._pre_load = [k for k in self._pre_load if k == "peek"]
         try:
             new = self.load_fresh(path, via, op.get("offset", 0))
         except Exception as e:
